@@ -10,12 +10,14 @@ int Futex::wake_one() noexcept {
   Node* node = nullptr;
   {
     ::std::lock_guard<::std::mutex> lock {_mutex};
-    for (node = _awaiter_head.next; node != nullptr; node = node->next) {
+    // 节点摘除后next会被清空，需要提前取出后继，否则遇到被取消方抢走的节点时遍历会提前终止
+    Node* next_node = nullptr;
+    for (node = _awaiter_head.next; node != nullptr; node = next_node) {
       // Unconditionally remove node from list, even when we can not take
       // ownership of it.
 
       // Link prev->next to next and next->prev to prev
-      auto next_node = node->next;
+      next_node = node->next;
       if (next_node != nullptr) {
         next_node->prev = &_awaiter_head;
       }
